@@ -1,11 +1,17 @@
 import NeoFS.Base.Parse
 import NeoFS.Model.Meta
+import NeoFS.Spec.MetaRef
 namespace NeoFS.Driver
 open NeoFS.Meta
 
 structure MetaState where
   db : DB := []
   epoch : Nat := 0
+  /-- print the reference views after every op (used when the check searches for a failing input) -/
+  showRef : Bool := false
+  /-- containers in which a removal mark was written for an id that is not a stored physical object
+  (the history condition of known finding C02-gc-counter) -/
+  tainted : List Nat := []
 
 def metaNC : Nat := 3
 def metaNO : Nat := 12
@@ -76,6 +82,75 @@ def metaDump (s : MetaState) : String :=
   let j (xs : List String) : String := if xs.isEmpty then "-" else String.intercalate "," xs
   s!"E={ex} G={ge} R={gr} L={lk} list={j list} exp={j exp} garb={j garb} ctr={ctr.phy},{ctr.root},{ctr.ts},{ctr.lock},{ctr.link},{ctr.gc},{ctr.payload} info={j info}"
 
+/-- compare every view of the model with the declarative reference; returns the failed assertions -/
+def metaSpecFailures (s : MetaState) : List String :=
+  let addrs := (List.range metaNC).flatMap fun c => (List.range metaNO).map fun o => (c + 1, o + 1)
+  let exF := addrs.filterMap fun a =>
+    let (b, e) := dbExists s.db a.1 a.2 s.epoch
+    let m := if e != .ok then errCode e else if b then "T" else "F"
+    let r := Ref.existsCode s.db a.1 a.2 s.epoch
+    if m == r then none else some s!"exists-reports-reference-status@{a.1}/{a.2}(view={m},reference={r})"
+  let geF := addrs.filterMap fun a =>
+    let m := errCode (dbGet s.db a.1 a.2 false s.epoch).1
+    let r := match Ref.existsCode s.db a.1 a.2 s.epoch with
+      | "T" | "E" | "S" => "K"   -- a header read without the raw flag answers for (virtual) parents too
+      | "F" => "N"
+      | x => x
+    let stored := match getCnr? s.db a.1 with
+      | some c => (c.find? a.2).isSome
+      | none => false
+    let r := if r == "K" && !stored then "N" else r
+    if m == r then none else some s!"get-reports-reference-status@{a.1}/{a.2}(view={m},reference={r})"
+  let lkF := addrs.filterMap fun a =>
+    let m := dbIsLocked s.db a.1 a.2 s.epoch
+    let r := match getCnr? s.db a.1 with
+      | some c => !c.gcMark && Ref.liveLock c s.epoch a.2
+      | none => false
+    if m == r then none else some s!"islocked-iff-live-lock@{a.1}/{a.2}(view={m},reference={r})"
+  -- listing: all pages of size 3 concatenated
+  let rec pages (fuel : Nat) (cur : Option (Nat × Nat)) (acc : List (Nat × Nat)) : List (Nat × Nat) :=
+    match fuel with
+    | 0 => acc
+    | fuel + 1 =>
+      let (res, next) := dbList s.db 3 cur
+      match next with
+      | none => acc
+      | some c => pages fuel (some c) (acc ++ res)
+  let listed := pages 100 none []
+  let wantList := s.db.flatMap fun b => (Ref.liveObjects b.2).map fun r => (b.1, r.id)
+  let liF := if listed == wantList then [] else [s!"listing-is-exactly-unmarked-physical-objects(view={listed.length},reference={wantList.length})"]
+  let expM := ((dbExpired s.db s.epoch).map fun x => (x.1, x.2.1)).mergeSort fun a b => a.1 < b.1 || (a.1 == b.1 && a.2 ≤ b.2)
+  let expR := Ref.expiredSet s.db s.epoch
+  let exF2 := if expM == expR then [] else
+    let extra := expM.filter (!expR.contains ·)
+    let missing := expR.filter (!expM.contains ·)
+    [s!"expired-iteration-is-exactly-expired-unlocked(extra={extra.map fun a => s!"{a.1}/{a.2}"},missing={missing.map fun a => s!"{a.1}/{a.2}"})"]
+  let ctr := dbCounters s.db
+  let rc := Ref.counters s.db
+  let ctF := if (ctr.phy, ctr.root, ctr.ts, ctr.lock, ctr.link) == rc then [] else
+    [s!"typed-counters-equal-indexed-objects(view={ctr.phy},{ctr.root},{ctr.ts},{ctr.lock},{ctr.link};reference={rc.1},{rc.2.1},{rc.2.2.1},{rc.2.2.2.1},{rc.2.2.2.2})"]
+  let inF := (List.range metaNC).filterMap fun c =>
+    let m := dbContainerInfo s.db (c + 1)
+    let r := Ref.containerInfo s.db (c + 1)
+    let cause := if s.tainted.contains (c + 1) then ",cause=removal-mark-on-id-that-is-not-a-stored-physical-object" else ""
+    if m == r then none else some s!"container-info-equals-live-physical-objects@{c + 1}(view={m.1}/{m.2},reference={r.1}/{r.2}{cause})"
+  exF ++ geF ++ lkF ++ liF ++ exF2 ++ ctF ++ inF
+
+/-- the views as the reference rules define them, in the field syntax of `metaDump` -/
+def metaRefDump (s : MetaState) : String :=
+  let addrs := (List.range metaNC).flatMap fun c => (List.range metaNO).map fun o => (c + 1, o + 1)
+  let ex := String.join (addrs.map fun a => Ref.existsCode s.db a.1 a.2 s.epoch)
+  let lk := String.join (addrs.map fun a =>
+    match getCnr? s.db a.1 with
+    | some c => if !c.gcMark && Ref.liveLock c s.epoch a.2 then "1" else "0"
+    | none => "0")
+  let list := (s.db.flatMap fun b => (Ref.liveObjects b.2).map fun r => (b.1, r.id)).map fun a => s!"{a.1}/{a.2}"
+  let exp := (Ref.expiredSet s.db s.epoch).map fun a => s!"{a.1}/{a.2}"
+  let rc := Ref.counters s.db
+  let info := (List.range metaNC).map fun c => let i := Ref.containerInfo s.db (c + 1); s!"{i.1}/{i.2}"
+  let j (xs : List String) : String := if xs.isEmpty then "-" else String.intercalate "," xs
+  s!"E={ex} L={lk} list={j list} exp={j exp} ctr={rc.1},{rc.2.1},{rc.2.2.1},{rc.2.2.2.1},{rc.2.2.2.2} info={j info}"
+
 def metaStep (s : MetaState) (o : OpLine) : MetaState × String :=
   let c := (o.nat? "c").getD 0
   let (s', res) : MetaState × String :=
@@ -96,6 +171,43 @@ def metaStep (s : MetaState) (o : OpLine) : MetaState × String :=
         | .garbage => "=> garbage"
         | _ => "=> notrevived")
     | _ => (s, "=> bad-op")
-  if res == "=> bad-op" then (s', res) else (s', res ++ " " ++ metaDump s')
+  -- history condition of the known finding: does this op write a removal mark for an id that is not a
+  -- stored physical object?
+  let notPhy (cn : Cnr) (id : Nat) : Bool := !((cn.find? id).any (·.phy))
+  let taints : Bool :=
+    match some ((getCnr? s.db c).getD {}) with
+    | none => false
+    | some cn =>
+      if cn.gcMark then false
+      else match o.name with
+        | "mark" => (((o.nats? "ids").getD []).flatMap fun id => id :: cn.collectChildren 4 id).any (notPhy cn)
+        | "put" =>
+          match parseChain o with
+          | h :: _ => h.typ == .tombstone && h.assoc != 0 && res == "=> K" &&
+              ((cn.collectChildren 4 h.assoc ++ [h.assoc]).any (notPhy cn))
+          | [] => false
+        | _ => false
+  let s' := if o.name == "delcnr" then { s' with tainted := s'.tainted.filter (· != c) }
+            else if taints && !s'.tainted.contains c then { s' with tainted := c :: s'.tainted } else s'
+  -- admission rules of C07, checked against the reference predicates on the state before the put
+  let admission : List String :=
+    match o.name, parseChain o with
+    | "put", h :: _ =>
+      let pre := (getCnr? s.db c).getD {}
+      let post := (getCnr? s'.db c).getD {}
+      let newlyIndexed := (pre.find? h.id).isNone && (post.find? h.id).isSome
+      if !newlyIndexed || h.assoc == 0 then []
+      else if h.typ == .lock then
+        (if Ref.tombstoned pre h.assoc then [s!"lock-rejected-for-tombstoned-object@{c}/{h.assoc}(lock={h.id})"] else [])
+      else if h.typ == .tombstone then
+        (if Ref.liveLock pre s.epoch h.assoc then [s!"tombstone-rejected-for-locked-object@{c}/{h.assoc}(tombstone={h.id})"] else []) ++
+        (if pre.typeOf h.assoc == some .lock then [s!"lock-object-cannot-be-tombstoned@{c}/{h.assoc}(tombstone={h.id})"] else [])
+      else []
+    | _, _ => []
+  if res == "=> bad-op" then (s', res)
+  else
+    let fails := admission ++ metaSpecFailures s'
+    (s', res ++ " " ++ metaDump s' ++ (if fails.isEmpty then "" else " ## FAIL " ++ String.intercalate " " fails)
+      ++ (if s'.showRef then " ## REF " ++ metaRefDump s' else ""))
 
 end NeoFS.Driver
